@@ -38,6 +38,30 @@ def Out.unswap (o : Out) : Out :=
 /-- `DagLike::rtl_post_order_iter` -/
 def rtl (root : T) : List Out := (run (mkey key) (init root.mirror)).map Out.unswap
 
+/-- `unswap` without unwrapping the handle (the driver prints handles by pointer identity, which
+`mirror` keeps; unwrapping a handle of a heavily shared DAG would unfold it) -/
+def Out.unswapIdx (o : Out) : Out :=
+  match o.node with
+  | .bin _ _ _ => ⟨o.node, o.index, o.ridx, o.lidx⟩
+  | _ => o
+
+/-- the iteration of `rtl_post_order_iter` given the swapped handle and the tracker's key on
+swapped handles: the stack machine, then the index exchange of `unswap` -/
+def rtlOn (root' : T) : List Out := (run key (init root')).map Out.unswapIdx
+
+theorem unswap_eq (o : Out) : o.unswap = { o.unswapIdx with node := o.unswapIdx.node.mirror } := by
+  obtain ⟨n, i, l, r⟩ := o
+  cases n <;> rfl
+
+/-- what the driver runs is `rtl` up to unwrapping the handles -/
+theorem rtl_eq_rtlOn (root : T) :
+    rtl key root = (rtlOn (mkey key) root.mirror).map fun o => { o with node := o.node.mirror } := by
+  unfold rtl rtlOn
+  rw [List.map_map]
+  apply List.map_congr_left
+  intro o _
+  exact unswap_eq o
+
 /-- right-to-left recursive walk of the original DAG: the right child's sub-DAG first -/
 def visitR : T → Seen K → Nat → List Out × Seen K × Nat × Nat
   | .leaf id, seen, idx => visit.fin key (.leaf id) none none [] seen idx
